@@ -33,7 +33,8 @@ def _snap(obj):
     if isinstance(obj, pandas.DataFrame):
         return ("frame", list(map(str, obj.columns)), list(obj.index), [tuple(map(repr, r)) for r in obj.itertuples(index=False)])
     if isinstance(obj, list):
-        return ("list", list(obj))
+        import json
+        return ("list", json.dumps(obj, default=repr))          # deep: a document may itself be a (mutable) list of tokens
     a = np.asarray(obj)
     return ("array", a.shape, str(a.dtype), a.tobytes())
 
@@ -95,6 +96,7 @@ BAD_KINDS = ["nan", "ylen", "few", "wlen", "X1d", "empty", "inf-y", "wrongtype",
 def _call_fit(entry, est, X, y, w, facts):
     """calls fit, checks the invariants that hold whether or not it raises; returns 'ok' or the exception"""
     before = R.params_image(est)
+    X = entry.prepare(est, X)           # what the caller really hands over (token lists for a pre-tokenized corpus)
     sx, sy, sw = _snap(X), _snap(y), _snap(w)
     err = None
     try:
@@ -126,6 +128,7 @@ def _outputs(entry, est, Z, facts):
         # other memory layouts / dtypes of the same batch: a method may refuse them, it may not write into them
         variants += [("F-order", np.asfortranarray(Z.copy())), ("float32", Z.astype(np.float32)), ("non-contiguous", np.repeat(Z, 2, axis=1)[:, ::2])]
     for vname, Zv in variants:
+        Zv = entry.prepare(est, Zv)
         sz = _snap(Zv)
         for m in entry.available(est):
             try:
